@@ -152,6 +152,7 @@ def run_case(ctx, case):
             objs.append(o)
             est.append(mask(radio.snapshot()["cfg"]))
         last_owner = len(objs) - 1
+        crc_dc = [False] * len(objs)
         compared = 0
         for bi, blk in enumerate(case["blocks"]):
             who, ops = blk[0], blk[1]
@@ -166,7 +167,17 @@ def run_case(ctx, case):
             if before != est[who]:
                 ctx.clause("foreign_change_seen")
                 compared += 1
-            if got != est[who]:
+            if crc_dc[who]:
+                # A5 (as in C03): after `crc = 0` the EN_CRC bit is a don't-care - the chip forces it
+                # while any auto-ack bit is set, and whether a read-modify-write (print_details() re-loads
+                # the cached view) latches the forced bit is chip-dependent
+                g2, e2 = bytearray(got), bytearray(est[who])
+                g2[0] &= ~0x08 & 0xFF
+                e2[0] &= ~0x08 & 0xFF
+                got_cmp, est_cmp = bytes(g2), bytes(e2)
+            else:
+                got_cmp, est_cmp = got, est[who]
+            if got_cmp != est_cmp:
                 d = cfg_ref.diff_cfg(est[who], got)
                 regs = ",".join(sorted({x.split()[0].rstrip("012345") for x in d}))
                 ctx.violation("reentry/%s:%s" % (cls, regs),
@@ -178,12 +189,16 @@ def run_case(ctx, case):
                 return
             for op in ops:
                 apply(o, cls, op, rig)
+                if op[0] == "crc":
+                    crc_dc[who] = isinstance(op[1], int) and op[1] <= 0
             est[who] = mask(radio.snapshot()["cfg"])
             if nested is not None:
                 o2, cls2 = objs[nested[0]], case["classes"][nested[0]]
                 o2.__enter__()
                 for op in nested[1]:
                     apply(o2, cls2, op, rig)
+                    if op[0] == "crc":
+                        crc_dc[nested[0]] = isinstance(op[1], int) and op[1] <= 0
                 est[nested[0]] = mask(radio.snapshot()["cfg"])
                 o2.__exit__(None, None, None)
                 ctx.count("nested_blocks")
